@@ -203,20 +203,19 @@ void LowMemoryRescaledHmmLikelihood::computeForward_()
       else
         (*currentLikelihood)[j] = 0;
     }
-    lScales[i - offset] = log(scale);
-
-    if (i - offset == maxSize_ - 1)
+    if (i - offset == lScales.size())
     {
-      // We make partial calculations and reset the arrays:
+      // The buffer is full: we make partial calculations and reset the arrays:
       double partialLogLik = 0;
       sort(lScales.begin(), lScales.end(), cmp);
-      for (size_t j = 0; j < maxSize_; ++j)
+      for (size_t j = 0; j < lScales.size(); ++j)
       {
         partialLogLik += lScales[j];
       }
       logLik_ += partialLogLik;
-      offset += maxSize_;
+      offset += lScales.size();
     }
+    lScales[i - offset] = log(scale);
   }
   sort(lScales.begin(), lScales.begin() + static_cast<ptrdiff_t>(nbSites_ - offset), cmp);
   double partialLogLik = 0;
